@@ -42,6 +42,10 @@ def main():
         tag = d.strip("/").replace("/", "_")
         wt = f"/tmp/mutcheck/{tag}"
         res = {"dir": d, "checks": {}}
+        try:
+            res["checks"] = json.load(open(os.path.join(d, "eval.json"))).get("checks", {})   # keep earlier results of other checks
+        except Exception:  # noqa: BLE001
+            pass
         sh(["git", "-C", "/repo", "worktree", "remove", "--force", wt])
         rc, out = sh(["git", "-C", "/repo", "worktree", "add", "--detach", wt, "HEAD"])
         try:
